@@ -507,8 +507,8 @@ func (s *sim) aftermath(lo, hi int) {
 		}
 	}
 	key := ""
-	if s.commitPrune && strings.Contains(d, "UNREADABLE") {
-		key = "prune-delete-before-fail"
+	if (s.commitPrune || (s.everPruned() && s.prunedFile)) && strings.Contains(d, "UNREADABLE") {
+		key = "prune-delete-before-durable"
 	}
 	s.r.Violate(prop, "atomicity-io-error", key,
 		"after injected %s at I/O #%d (%s %s) the state is neither the model before nor after the transaction (candidates %d..%d): %s",
@@ -552,8 +552,8 @@ func (s *sim) restartAfterFault(why string) bool {
 		}
 	}
 	key := ""
-	if strings.Contains(d, "UNREADABLE") && s.everPruned() {
-		key = "prune-delete-before-fail"
+	if strings.Contains(d, "UNREADABLE") && s.everPruned() && s.prunedFile {
+		key = "prune-delete-before-durable"
 	}
 	s.r.Violate(prop, "prefix-after-io-error", key,
 		"after injected %s (%s) and reopen the state is no prefix of the committed transactions in %d..%d: %s",
